@@ -304,6 +304,10 @@ def finish(prop, tier, seed, results, meta, wall, verbose, partial=False):
         rows += d.get("rows", 0)
         for k, v in d.get("by_procedure", {}).items():
             procs[k] = procs.get(k, 0) + v
+        for k2, lab in (("second_solver_pruned_agree", "second-solver(cvc5) agrees on pruned SX branch"),
+                        ("second_solver_pruned_noverdict", "second-solver(cvc5) no verdict on pruned SX branch")):
+            if r.get("sx", {}).get(k2):
+                procs[lab] = procs.get(lab, 0) + r["sx"][k2]
         if r.get("sx", {}).get("queries"):
             procs["SX/branch-feasibility"] = procs.get("SX/branch-feasibility", 0) + r["sx"]["queries"]
         paths += r.get("paths", 0)
